@@ -12,6 +12,7 @@ pub fn run(ctx: &mut Ctx) {
     kzg10(ctx);
     generic::c07_all(ctx);
     bounded_parts_independent(ctx);
+    blinding_covers_the_key(ctx);
     ctx.flush_model("C07");
 }
 
@@ -188,4 +189,80 @@ fn bounded_parts_independent(ctx: &mut Ctx) {
         |c| c.shifted_comm.as_ref().map(|s| c.comm.into_group() - s.into_group()),
         |st| st.shifted_rand.as_ref().map(|s| *s == st.rand));
     let _ = G1::default().into_affine();
+}
+
+/// "Sufficient randomness": the blinding must cover what the KEY can reveal, not just the polynomial at hand.
+/// IPA `open` of a hiding polynomial draws a fresh hiding polynomial over all `d+1` coefficient positions of the
+/// key (plus its own blinder), however low the degree of the opened polynomial; MarlinPST13 `commit` draws
+/// `1 + n·(h+1)` blinding coefficients for the key's `n` variables, however few variables the polynomial declares.
+fn blinding_covers_the_key(ctx: &mut Ctx) {
+    use ark_poly::multivariate::{SparsePolynomial, SparseTerm, Term};
+    use ark_poly::DenseMVPolynomial;
+    use ark_poly_commit::{LabeledPolynomial, PolynomialCommitment};
+    for i in 0..ctx.n(4, 16) {
+        let id = format!("C07/blinding-covers-key/ipa/{}", i);
+        if !ctx.selected(&id) {
+            continue;
+        }
+        let mut rng = rng_for(ctx.seed, "C07/blinding-covers-key/ipa", i as u64);
+        let d = [7usize, 15, 3, 31][i % 4];
+        let deg = [0usize, 2, 1, 0][i % 4].min(d);
+        let r = guarded(|| -> Result<u64, String> {
+            let pp = generic::IpaPC::setup(d, None, &mut rng).map_err(|e| format!("{:?}", e))?;
+            let (ck, _vk) = generic::IpaPC::trim(&pp, d, 1, None).map_err(|e| format!("{:?}", e))?;
+            let p = <generic::UniPoly as ark_poly::DenseUVPolynomial<Fr>>::rand(deg, &mut rng);
+            let lp = LabeledPolynomial::new("p".to_string(), p, None, Some(1));
+            let (c, st) = generic::IpaPC::commit(&ck, [&lp], Some(&mut rng)).map_err(|e| format!("{:?}", e))?;
+            let z = Fr::rand(&mut rng);
+            let mut cr = CountRng::new(rng.clone());
+            let mut sp = generic::fresh_sponge();
+            generic::IpaPC::open(&ck, [&lp], &c, &z, &mut sp, &st, Some(&mut cr)).map_err(|e| format!("{:?}", e))?;
+            Ok(cr.bytes)
+        });
+        match r {
+            Ok(Ok(bytes)) => {
+                let need = ((d + 2) * 31) as u64;
+                if bytes < need {
+                    ctx.rep.expect_fail(&id, "ipa/open-blinding-shorter-than-key",
+                        &format!("open of a hiding polynomial of degree {} under a key of degree {} drew {} bytes from the RNG; a hiding polynomial over all {} positions plus its blinder needs at least {}", deg, d, bytes, d + 1, need),
+                        format!("# scheme: ipa\n# case: {}\n# seed: {}\n# key degree {}, polynomial degree {}, hiding bound 1\n# rerun: .build/cargo/debug/pcv-harness C07 --seed {} --only {}\n", id, ctx.seed, d, deg, ctx.seed, id));
+                }
+                ctx.rep.case(&format!("ipa open blinding: key {} poly deg {} rng bytes {}", d, deg, bytes), Some(format!("blinding-covers-key/ipa/{}/{}", d, deg)));
+            }
+            Ok(Err(e)) | Err(e) => ctx.rep.expect_fail(&id, "ipa/hiding-open-refused", &format!("in-domain hiding open refused: {}", e), format!("# case: {}\n", id)),
+        }
+    }
+    for i in 0..ctx.n(4, 16) {
+        let id = format!("C07/blinding-covers-key/pst13/{}", i);
+        if !ctx.selected(&id) {
+            continue;
+        }
+        let mut rng = rng_for(ctx.seed, "C07/blinding-covers-key/pst13", i as u64);
+        let nv = 2 + i % 3;
+        let h = 1 + i % 3;
+        let declared = [0usize, 1, 0, nv - 1][i % 4];
+        let r = guarded(|| -> Result<u64, String> {
+            let pp = generic::Pst13PC::setup(3, Some(nv), &mut rng).map_err(|e| format!("{:?}", e))?;
+            let (ck, _vk) = generic::Pst13PC::trim(&pp, 3, h, None).map_err(|e| format!("{:?}", e))?;
+            // a constant, declared over `declared` variables
+            let p: generic::MvPoly = SparsePolynomial::from_coefficients_vec(declared, vec![(Fr::rand(&mut rng), SparseTerm::new(vec![]))]);
+            let lp = LabeledPolynomial::new("p".to_string(), p, None, Some(h));
+            let mut cr = CountRng::new(rng.clone());
+            generic::Pst13PC::commit(&ck, [&lp], Some(&mut cr)).map_err(|e| format!("{:?}", e))?;
+            Ok(cr.bytes)
+        });
+        match r {
+            Ok(Ok(bytes)) => {
+                let need = ((1 + nv * (h + 1)) * 31) as u64;
+                if bytes < need {
+                    ctx.rep.expect_fail(&id, "pst13/commit-blinding-shorter-than-key",
+                        &format!("commit of a hiding constant declared over {} variables under a key of {} variables (hiding bound {}) drew {} bytes; 1 + n(h+1) = {} blinding coefficients need at least {}", declared, nv, h, bytes, 1 + nv * (h + 1), need),
+                        format!("# scheme: pst13\n# case: {}\n# seed: {}\n# rerun: .build/cargo/debug/pcv-harness C07 --seed {} --only {}\n", id, ctx.seed, ctx.seed, id));
+                }
+                ctx.rep.case(&format!("pst13 commit blinding: key nv {} declared {} h {} rng bytes {}", nv, declared, h, bytes), Some(format!("blinding-covers-key/pst13/{}/{}/{}", nv, declared, h)));
+            }
+            // a polynomial declared over fewer variables may be refused by a scheme; it is an answer either way
+            Ok(Err(e)) | Err(e) => ctx.rep.case(&format!("pst13 constant declared over {} variables refused: {}", declared, e.chars().take(40).collect::<String>()), Some("blinding-covers-key/pst13/refused".into())),
+        }
+    }
 }
